@@ -30,9 +30,9 @@ type Item struct {
 
 func (props Props) Items() []Item {
 	items := make([]Item, 0)
-	for _, key := range props.Keys() {
-		for _, value := range props.Get(key) {
-			items = append(items, Item{key, value})
+	for _, prop := range props {
+		for _, value := range prop[1:] {
+			items = append(items, Item{prop[0], value})
 		}
 	}
 	return items
